@@ -598,7 +598,27 @@ class Engine:
                 pass
             return
         if lc is None:
-            raise Unsupported("loop #%d of %s has no invariant in its contract" % (ordinal, frame.fsrc.qualname))
+            N = getattr(self.world, "unroll", None)
+            if N is None:
+                raise Unsupported("loop #%d of %s has no invariant in its contract" % (ordinal, frame.fsrc.qualname))
+            # bounded-refutation mode for a loop the contract does not know (a changed body): exact
+            # unrolling for iterables of at most N items.  Only `sat` answers are used (DESIGN 2.6).
+            self.side(seq.n <= N)
+            try:
+                for i in range(N):
+                    if not self.branch(z3.IntVal(i) < seq.n):
+                        break
+                    self.assign(st.target, seq.get(self, z3.IntVal(i)), frame)
+                    try:
+                        self.exec_block(st.body, frame)
+                    except ContinueSig:
+                        continue
+                else:
+                    pass
+                self.exec_block(st.orelse, frame)
+            except BreakSig:
+                pass
+            return
         if st.orelse:
             raise Unsupported("for/else with invariant")
         kname = lc.get("index", "_k")
@@ -836,7 +856,7 @@ class Engine:
                 c = sym.is_concrete_bool(t)
                 if c is not None and c != is_and:
                     # decisive operand: the rest is not evaluated (as in Python)
-                    return VBool(z3.BoolVal(c)) if not ts else VBool(z3.And(*ts) if is_and and not c else z3.Or(*(ts + [t])) if not is_and else z3.BoolVal(False))
+                    return VBool(z3.BoolVal(c))
                 ts.append(t)
             return VBool(z3.And(*ts) if is_and else z3.Or(*ts))
         v = None
@@ -1026,6 +1046,14 @@ class Engine:
             return fn.model.call(self, fn, args, kwargs, node)
         if isinstance(fn, VObj):
             return self.world.ext.call_unknown(self, fn, args, kwargs, node)
+        if isinstance(fn, VOpaque) and fn.name == "unprovided" and len(args) == 1:
+            # Unprovided.__call__(v): isinstance(v, Unprovided); `unprovided` is the only instance
+            a = args[0]
+            if isinstance(a, VOpaque):
+                return VBool(a.name == "unprovided")
+            if isinstance(a, VObj):
+                return VBool(a.t == self.world.opaque_const("unprovided"))
+            return VBool(False)
         raise Unsupported("call of %r" % (fn,))
 
     def ex_ListComp(self, node, frame):
